@@ -21,7 +21,7 @@ use crate::{
     block_watcher::{BlockProvider, BlockWatcher},
     common::{self, HtlcSpec, H128},
     email::{NotificationService, NotifyPaymentFailedRequest},
-    explore::{Choice, Model, Violation},
+    explore::{Choice, Dev, Model, Violation},
     htlc_manager::{HtlcManager, HtlcManagerParams},
     messages::{BlockAdded, HtlcAcceptedResponse, TrampolineInfo, TrampolineRoutingPolicy},
     payment_provider::PayPaymentProvider,
@@ -133,6 +133,10 @@ pub struct WCfg {
     /// `Hold` deviations: the next event is applied without letting the plugin run, so that it reaches the plugin
     /// together with the event after it
     pub max_holds: u32,
+    /// do not explore run-queue orders other than first-in-first-out in this scenario
+    pub no_picks: bool,
+    /// how many times per history a task may be suspended at a preemption point (0 = not explored)
+    pub max_parks: u32,
     /// default resolution of a part is failure (pay fails on the default path)
     pub default_part_fails: bool,
     /// C13 differential: request labels of the baseline run (same scenario without the pass-through HTLCs)
@@ -180,6 +184,8 @@ impl WCfg {
             freeze: None,
             max_stalls: 2,
             max_holds: 0,
+            no_picks: false,
+            max_parks: 1,
             default_part_fails: false,
             baseline_reqs: None,
             max_depth: 90,
@@ -271,6 +277,8 @@ enum Ev {
     Hold,
     /// let the plugin run (only offered when a held-back event would otherwise never reach it)
     Flush,
+    /// the task that was suspended at a preemption point continues (nothing else happens)
+    Resume,
 }
 
 struct CountPolls<F> {
@@ -281,8 +289,12 @@ struct CountPolls<F> {
 impl<F: Future> Future for CountPolls<F> {
     type Output = F::Output;
     fn poll(mut self: Pin<&mut Self>, cx: &mut Context<'_>) -> Poll<F::Output> {
-        self.polls.fetch_add(1, Ordering::Relaxed);
-        self.inner.as_mut().poll(cx)
+        // nothing a handler does before it first takes the payments lock is visible to anyone
+        let first = self.polls.fetch_add(1, Ordering::Relaxed) == 0;
+        sched::set_fresh(first);
+        let r = self.inner.as_mut().poll(cx);
+        sched::set_fresh(false);
+        r
     }
 }
 
@@ -366,6 +378,11 @@ pub struct W {
     a_events: u32,
     history: Vec<String>,
     last_labels: Vec<String>,
+    /// run-queue deviations for the next step / pick points of the last step / deviations used so far
+    next_dev: Dev,
+    last_step: sched::StepInfo,
+    picks_used: u32,
+    parks_used: u32,
     b_trace: Vec<String>,
     steps: usize,
 }
@@ -407,6 +424,12 @@ impl W {
             return;
         }
         if !self.has(property) {
+            return;
+        }
+        if self.parks_used > 0 && matches!((property, clause), ("C04", "safe-expiry") | ("C06", "answered-within-timeout") | ("C11", "not-much-later")) {
+            // These oracles compare instants, and take "what the plugin held when it issued a request" for "what it
+            // held when it read its state". A task suspended between two of its own steps separates the two, and
+            // is late by as much as the scheduler made it; the history says nothing about these clauses then.
             return;
         }
         self.trace.push(format!("!! VIOLATION {} {} {} :: {}", property, clause, shape, detail));
@@ -796,6 +819,9 @@ impl W {
             }
         }
         let mut out = Vec::new();
+        if sched::parked() > 0 && !self.hold_armed && !self.in_probe {
+            out.push((Ev::Resume, Choice { label: "Resume".to_string(), cost: 0 }));
+        }
         for (n, (e, l)) in free.into_iter().enumerate() {
             out.push((
                 e,
@@ -858,9 +884,13 @@ impl W {
         for (p, m, r) in std::mem::take(&mut self.held_notes) {
             self.note_answer(&p, m, &r);
         }
+        // a task suspended at a preemption point continues now, behind whatever this event made runnable
+        if sched::release_parked() > 0 {
+            self.trace.push("  [scheduler] the suspended task continues".to_string());
+        }
         // run the plugin to quiescence
         let inc = self.inc.as_mut().unwrap();
-        inc.rt.block_on(sched::quiesce());
+        inc.rt.block_on(sched::quiesce_parkable());
         let sel = sched::take_select_log();
         self.view.add(&("sel", sel.len()));
         // panics in tasks the plugin spawned itself (lifecycles)
@@ -1473,6 +1503,7 @@ impl W {
         sched::take_panics();
         sched::take_select_log();
         sched::clear_select_queue();
+        sched::drop_parked();
         self.sim.with(|s| s.crash(apply));
         if lose {
             for t in self.last_step_responses.clone() {
@@ -1642,7 +1673,7 @@ impl W {
                 self.sim.with(|s| s.height = *h);
                 self.after_event(ev);
             }
-            Ev::Flush => {
+            Ev::Flush | Ev::Resume => {
                 self.after_event(ev);
             }
             Ev::Hold => {
@@ -1790,8 +1821,7 @@ impl Model for W {
 
     fn new(cfg: &Arc<WCfg>) -> Self {
         sched::take_panics();
-        sched::take_select_log();
-        sched::clear_select_queue();
+        sched::own_select();
         crate::clock::enable(crate::clock::BASE_SECS * 1_000_000_000 + cfg.seed.wall_offset_ms * 1_000_000);
         let mut sim = Sim::new(common::local_pubkey().to_string());
         sim.height = cfg.start_height;
@@ -1873,6 +1903,10 @@ impl Model for W {
             a_events: 0,
             history: Vec::new(),
             last_labels: Vec::new(),
+            next_dev: Dev::None,
+            last_step: sched::StepInfo::default(),
+            picks_used: 0,
+            parks_used: 0,
             b_trace: Vec::new(),
             steps: 0,
         };
@@ -1942,12 +1976,54 @@ impl Model for W {
 
     fn apply(&mut self, idx: usize) {
         let ev = self.events[idx].clone();
-        self.free_choice = idx == 0;
+        let dev = std::mem::replace(&mut self.next_dev, Dev::None);
+        self.free_choice = idx == 0 && dev == Dev::None;
         if let Some(l) = self.last_labels.get(idx) {
             self.history.push(l.clone());
         }
         self.trace.push(format!("{}", self.label_of(&ev)));
+        let (script, park): (Vec<(u16, u8)>, Option<u16>) = match dev {
+            Dev::None => (Vec::new(), None),
+            Dev::Pick(j, k) => {
+                self.trace.push(format!("  [scheduler] at moment {} with several runnable tasks, the task at queue position {} runs first", j, k));
+                self.picks_used += 1;
+                self.view.add(&("pick", j, k));
+                (vec![(j, k)], None)
+            }
+            Dev::Park(n) => {
+                self.trace.push(format!("  [scheduler] the task reaching preemption point {} of this step (lock / send / recv) is suspended there", n));
+                self.parks_used += 1;
+                self.view.add(&("park", n));
+                (Vec::new(), Some(n))
+            }
+        };
+        sched::begin_step(&script, park);
         self.apply_ev(&ev);
+        self.last_step = sched::end_step();
+    }
+
+    fn set_deviation(&mut self, dev: Dev) {
+        self.next_dev = dev;
+    }
+
+    fn last_pick_points(&self) -> Vec<u8> {
+        if self.cfg.no_picks || self.in_probe {
+            Vec::new()
+        } else {
+            self.last_step.picks.clone()
+        }
+    }
+
+    fn last_sync_points(&self) -> u16 {
+        if self.in_probe || self.parks_used >= self.cfg.max_parks || sched::parked() > 0 {
+            0
+        } else {
+            self.last_step.syncs
+        }
+    }
+
+    fn deviation_reached(&self) -> bool {
+        self.last_step.script_hit
     }
 
     fn key(&self) -> u128 {
@@ -1957,11 +2033,21 @@ impl Model for W {
         h.add(&(self.vtime_ms, self.advances, self.height_events, self.crashes, self.faults, self.inc_no, self.told_height, self.idle_advances, self.stalls, self.holds, self.hold_armed, self.held_evs.len()));
         h.add(&self.last_step_responses);
         h.add(&self.mon);
+        h.add(&(sched::parked(), self.parks_used));
         h.value()
     }
 
     fn finish(&mut self) {
         let cfg = Arc::clone(&self.cfg);
+        // a history cut short while a task is suspended: let it continue before judging
+        for _ in 0..4 {
+            if sched::parked() == 0 || self.inc.is_none() {
+                break;
+            }
+            self.hold_armed = false;
+            self.apply_ev(&Ev::Resume);
+            self.run_default_to_end(40);
+        }
         // C06: every delivered call answered exactly once
         let unanswered: Vec<String> = (0..self.hstate.len())
             .filter(|i| matches!(self.hstate[*i], HState::Held { .. }))
@@ -2023,6 +2109,9 @@ impl Model for W {
                     "a payment did not finish while a payment for a different hash was frozen".into(),
                     format!("unanswered {:?}; frozen after {} events of the other payment", held_b, f.after),
                 );
+            } else if self.picks_used + self.parks_used > 0 {
+                // a different run-queue order may reorder this payment's own tasks: its trace is then not
+                // comparable line by line with the first-in-first-out baseline (progress is still required)
             } else {
                 match crate::explore::replay_labels::<W>(&f.solo, &projected, false) {
                     Ok(solo) => {
@@ -2051,7 +2140,7 @@ impl Model for W {
             }
         }
         // C13 differential: after the pass-through HTLCs the same hash behaves as from the initial state
-        if let Some(base) = &cfg.baseline_reqs {
+        if let (Some(base), 0) = (&cfg.baseline_reqs, self.picks_used + self.parks_used) {
             // getinfo polls depend on elapsed time only; compare the payment-related requests
             let mine: Vec<String> = self.req_labels.iter().filter(|l| !l.starts_with("getinfo")).cloned().collect();
             let base: Vec<String> = base.iter().filter(|l| !l.starts_with("getinfo")).cloned().collect();
